@@ -626,7 +626,7 @@ def run(res, tier):
     try:
         std.run_lab(res, PID, tier, area="fdleak", gen_scenarios=gen_scenarios, run_impl=run_impl, to_case=to_case,
                     oracle=oracle, corr_name="FdleakModel (descriptor protocol machine) vs the running squid",
-                    n_quick=32, n_thorough=500, seed_salt=8, kind_fn=kind_fn, nontrivial_fn=nontrivial_fn)
+                    n_quick=28, n_thorough=500, seed_salt=8, kind_fn=kind_fn, nontrivial_fn=nontrivial_fn)
     finally:
         _state.clear()
         _diag.clear()
